@@ -23,7 +23,8 @@ RULE = (
     "from {0, n-1, within the half window of either end, chunk/file bounds +-1, duplicates}; "
     "window length 1..12; per-spike channel rows (distinct channels, -1 entries); unit factor in "
     "{1,2,3,1.0,0.5,2.5}; store queries = generated sub-multisets of the stored spike ids in "
-    "generated order with a generated channel list. Routes: extract_waveforms on the reader and on "
+    "generated order with a generated channel list; the export target path is empty or already "
+    "holds an earlier, different export. Routes: extract_waveforms on the reader and on "
     "the plain array; export_waveforms -> np.load (must load, declared shape, window x factor in "
     "spike order); get_spike_waveforms on the store built from the exported file (claimed at "
     "(spike, channel) positions whose channel is stored for that spike). Oracle: double loop "
@@ -80,7 +81,8 @@ def _case(draw):
     return {'lay': lay, 'spikes': spikes, 'sdt': draw(st.sampled_from(
         ['int64', 'uint64', 'int32', 'uint32'])), 'nsw': nsw, 'chans': chans, 'common': common,
         'factor': draw(st.sampled_from(FACTORS)), 'cache': draw(st.booleans()),
-        'queries': queries, 'id_step': draw(st.integers(1, 3))}
+        'queries': queries, 'id_step': draw(st.integers(1, 3)),
+        'preexisting': draw(st.booleans())}
 
 
 def drivers(tier):
@@ -130,6 +132,9 @@ def check(case):
         nloc = len(case['chans'][0]) if ns else 2
         sc = np.array(case['chans'], dtype=np.int32).reshape((ns, nloc))
         path = o.dir / 'wave.npy'
+        if case.get('preexisting'):
+            # an earlier export (of something else) already sits at the target path
+            np.save(path, np.full((ns + 2, nsw + 1, 1), 7.5))
         must_return('export_waveforms', export_waveforms, path, r, ss, sc, n_samples_waveforms=nsw,
                     cache=case['cache'], sample2unit=factor)
         try:
@@ -205,4 +210,6 @@ def classify(case, info):
         labels.append('multi-file')
     if case['queries']:
         labels.append('store-queries')
+    if case.get('preexisting'):
+        labels.append('export-over-existing-file')
     return labels, nt
